@@ -46,4 +46,17 @@ CONF["C01"] = {
     "assumptions": ["recover() on the calling goroutine observes every panic of the library", "a decode of a <20 KiB input that takes more than 20 s is a hang"],
 }
 
+CONF["C03"] = {
+    "pkg": "c03",
+    "level": "exploration",
+    "exhaustive_claim": False,
+    "technique": "exhaustive file-type-byte and (file type, message type) sweeps + rapid-generated tagged message sequences, compared with a routing model derived by reflection from the exported container structs; metamorphic removal of unheld messages",
+    "level_text": "Generated search: sequences of tagged messages over all 17 file types are decoded and every container slot is compared (count, order, last-wins) with a routing model read off the exported container struct types, not the hand-written add switches; all 256 type bytes are enumerated for acceptance and for the 17 accessors; every (file type, known message) pair is exercised. Sampled for longer interleavings.",
+    "level_note": "Trusted: the exported container structs are the specification of what a file type holds (slice member = all in order, pointer member = last); File-level slots (FileId, FileCreator, TimestampCorrelation) take precedence over containers. Repeated file_id messages always carry the same type (changing it mid-stream is finding D13 under C07).",
+    "quick": {"checks": 4000, "timeout": 300, "shrinktime": "10s"},
+    "thorough": {"checks": 150000, "timeout": 1500, "shards": 4, "shrinktime": "30s"},
+    "rule": "typebytes: each of the 256 file_id type bytes through Decode and NewFile, then all 17 accessors (distinct, all counted). pairs: each (file type, known message number) with 3 tagged messages of that type on two local types and both byte orders, interleaved with another hosted type. sequences: rapid-drawn 1..30 messages over a focus set of 3 hosted types plus other hosted, unhosted known and unknown messages, each tagged with its position in a marker field, on random local types and byte orders; non-trivial = at least 2 message types and a hosted type occurring at least twice; distinct by fingerprint of the sequence.",
+    "assumptions": ["exported container struct members are the routing specification", "marker fields are unsigned scalars outside component expansion so tags survive decoding unchanged (checked by C02)"],
+}
+
 NOT_APPLICABLE = {}
